@@ -55,6 +55,7 @@ def main():
             else:
                 pkdir = pk[:-5] if pk.endswith("_test") else pk
                 tgt = os.path.join(wt, pkdir, "zz_seed_" + (d if d.endswith("_test.go") else d[:-3] + "_test.go"))
+            os.makedirs(os.path.dirname(tgt), exist_ok=True)
             shutil.copy(os.path.join(dst, d), tgt)
             placed.append(tgt)
         demo_pkgs = sorted({"./" + os.path.relpath(os.path.dirname(p), wt) + "/" for p in placed})
@@ -64,11 +65,18 @@ def main():
         if names:
             runarg = ["-run", "^(" + "|".join(names) + ")$"]
 
+        denv = dict(ENV)
+        for i, a in enumerate(sys.argv):
+            if a == "--demo-env":  # e.g. --demo-env GOARCH=386 / GOMAXPROCS=1: the environment the demonstration needs
+                k, v = sys.argv[i + 1].split("=", 1)
+                denv[k] = v
+                meta.setdefault("demo_env", {})[k] = v
+
         def demo():
             if any(p.endswith("main.go") for p in placed):
-                r = sh(["go", "run", "./zzdemo"], cwd=wt, env=ENV)
+                r = sh(["go", "run", "./zzdemo"], cwd=wt, env=denv)
             else:
-                r = sh(["go", "test", "-vet=off", "-count=1"] + (["-race"] if "--race-demo" in sys.argv else []) + (["-tags", sys.argv[sys.argv.index("--demo-tags") + 1]] if "--demo-tags" in sys.argv else []) + runarg + demo_pkgs, cwd=wt, env=ENV)
+                r = sh(["go", "test", "-vet=off", "-count=1"] + (["-race"] if "--race-demo" in sys.argv else []) + (["-tags", sys.argv[sys.argv.index("--demo-tags") + 1]] if "--demo-tags" in sys.argv else []) + runarg + demo_pkgs, cwd=wt, env=denv)
             return r.returncode, r.stdout[-1500:]
         rc0, out0 = demo()
         meta["demo_without_change"] = "pass" if rc0 == 0 else "FAIL"
